@@ -1,4 +1,5 @@
 import Gittuf.Props.C02
+import Gittuf.Props.C02b
 #print axioms Gittuf.C02_newState_root_signed
 #print axioms Gittuf.C02_newState_versions
 #print axioms Gittuf.C02_chain_sound
@@ -6,3 +7,5 @@ import Gittuf.Props.C02
 #print axioms Gittuf.C02_verify_primary_signed
 #print axioms Gittuf.verifyDelegations_reached
 #print axioms Gittuf.C02_verify_delegations
+#print axioms Gittuf.World.relLoop_chain_gen
+#print axioms Gittuf.World.C02_relative_chain
